@@ -120,6 +120,20 @@ CORPUS["async-child-launch"] = dict(
                             "kidwork": [{"ok": {"op": "tag"}, "delay": 2.0}]},
     machines={"kid": {"definition": machine("K", K=T("kidwork", End=True)), "type": "STANDARD"}})
 
+# a Map with MaxConcurrency batches that is not at the top level: in a Parallel branch, and in the iterations of an
+# unbatched Map (its re-entry events for the later batches carry the frame of the fan-out around it)
+CORPUS["parallel-branch-with-batched-map"] = dict(
+    definition=machine("P", P={"Type": "Parallel", "End": True, "Branches": [
+        machine("M", M={"Type": "Map", "ItemsPath": "$.items", "MaxConcurrency": 1,
+                        "ItemProcessor": machine("T", T=T("f1", End=True)), "End": True}),
+        machine("B", B=T("f2", End=True))]}),
+    input={"items": [1, 2, 3]}, script={"f1": [{"ok": OK, "delay": 1.0}], "f2": [{"ok": {"op": "tag"}, "delay": 2.5}]})
+CORPUS["map-of-batched-maps"] = dict(
+    definition=machine("O", O={"Type": "Map", "ItemsPath": "$.groups", "End": True, "ItemProcessor": machine(
+        "M", M={"Type": "Map", "ItemsPath": "$.items", "MaxConcurrency": 2,
+                "ItemProcessor": machine("T", T=T("f1", End=True)), "End": True})}),
+    input={"groups": [{"items": [1, 2, 3]}, {"items": [4, 5, 6, 7, 8]}]}, script={"f1": [{"ok": OK, "delay": 1.0}]})
+
 # a child execution the parent waits for (.sync): the parent's launching Task must re-attach to the running child after a
 # restart (the child is named by the launching event's id, which survives redelivery)
 for _form, _nm in (("startExecution.sync", "sync-child-between-tasks"), ("startExecution.sync:2", "sync2-child-between-tasks")):
